@@ -217,6 +217,8 @@ pub fn case_json(mat: &Mat, s: f64, kind: &str, step: Option<usize>, o: &QueryOu
     let mut v = mat.json();
     let m = v.as_object_mut().unwrap();
     m.insert("score".into(), json!(s));
+    // serde_json (without its float_roundtrip feature) may parse a decimal one ulp off: replays use the bit pattern
+    m.insert("score_bits".into(), json!(format!("{:016x}", s.to_bits())));
     m.insert("query_kind".into(), json!(kind));
     m.insert("failing_step".into(), json!(step));
     m.insert("observed_steps".into(), fmt_steps(&o.steps));
@@ -316,7 +318,10 @@ pub fn run(ctx: &mut Ctx, rep: &mut Report) {
 pub fn replay(_ctx: &mut Ctx, rep: &mut Report, case: &Value) {
     rep.space("replay", "replay of one recorded (matrix, background, score): all refinement steps and the final pvalue()");
     let mat = Mat::from_json(case);
-    let s = case["score"].as_f64().expect("score");
+    let s = match case["score_bits"].as_str().and_then(|h| u64::from_str_radix(h, 16).ok()) {
+        Some(bits) => f64::from_bits(bits),
+        None => case["score"].as_f64().expect("score"),
+    };
     let kind = case["query_kind"].as_str().unwrap_or("replay").to_string();
     let ex = Exact::new(&mat);
     let pssm = mat.scoring();
